@@ -255,6 +255,43 @@ def r04_1(prog, rep):
     return f, ev, rets, (ab, ai)
 
 
+def r04_4(prog, rep, rid="R04.4"):
+    """A watcher that has delivered its last occurrence carries the mark `reschedule_cb = NULL` until the child watcher retires the task.
+    A submission that *replaces* such a task re-uses the record and its watcher: before the watcher is started again the reschedule
+    callback must have been set anew on every path (ev_periodic_init() does it) — started with the mark still on, the new schedule fires
+    once at a bogus time and is unscheduled when the old execution exits."""
+    from ..flow import must_pass
+    n = 0
+    for f in prog.fns_in(DAEMON):
+        if not f.cfg:
+            continue
+        cfg = f.cfg
+        starts = call_sites(f, "ev_periodic_start")
+        if not starts:
+            continue
+        sets = []
+        for b, i, x, line in cfg.all_elems():
+            if not isinstance(x, dict):
+                continue
+            for l, kind, nn in writes(x):
+                if lv(l).endswith("reschedule_cb") and nn.get("k") == "bin" and nn["op"] == "=":
+                    r = strip_casts(cfg.resolve(nn["r"]))
+                    if r.get("k") == "ref" and r.get("dk") == "fn":
+                        sets.append((b, i))
+        for S in starts:
+            n += 1
+            key = "%s/reschedule-callback-set-before-start" % f.name
+            same = any(b == S.b and i < S.i for b, i in sets)
+            if same or (sets and must_pass(cfg, cfg.entry, S.b, {b for b, i in sets if b != S.b})):
+                rep.ok(rid, key, f.loc(S.line), "every path to ev_periodic_start() sets the watcher's reschedule callback first")
+            else:
+                rep.fail(rid, key, f.loc(S.line), "a path reaches ev_periodic_start() without the watcher's reschedule callback having been set anew: a task "
+                         "replaced after its last occurrence fired (reschedule_cb == NULL, execution still running) is started with that mark on — "
+                         "one bogus run at once, and the new schedule is dropped when the old execution exits")
+    if n < 1:
+        rep.broken_("rule=%s no ev_periodic_start() in the daemon" % rid)
+
+
 def _origin(f, name):
     out = set()
     for b, i, x, line in f.cfg.all_elems():
@@ -440,6 +477,8 @@ def run(prog, rep, tier, snap):
     rep.rule("R04.2", "retirement reachability: end-of-stream branches, retire callback, child callback, cancel, registration", 8)
     if ctx:
         rep.call(r04_2, prog, rep, ctx)
+    rep.rule("R04.4", "a (re-)started task watcher has had its reschedule callback set anew on every path", 1)
+    rep.call(r04_4, prog, rep)
     rep.rule("R04.3", "descriptor hygiene of the daemon's spawn path", 3)
     rep.call(r04_3, prog, rep)
     from . import c12
